@@ -9,6 +9,7 @@ import (
 	"strings"
 	"time"
 
+	"github.com/pquerna/otp/totp"
 	"github.com/volatiletech/authboss/v3"
 	"github.com/volatiletech/authboss/v3/otp/twofactor/sms2fa"
 	"github.com/volatiletech/authboss/v3/otp/twofactor/totp2fa"
@@ -167,6 +168,15 @@ func idxOf(list []string, v string) int {
 		}
 	}
 	return -1
+}
+
+// Hash512 is the storage form of a one-time password.
+func Hash512(s string) string { return hash512(s) }
+
+// TotpNow returns a currently valid code of TOTP secret id.
+func (w *World) TotpNow(id int) string {
+	c, _ := totp.GenerateCode(w.ts[id-1], time.Now())
+	return c
 }
 
 func hash512(s string) string {
